@@ -4,6 +4,8 @@
    The history is built along the execution: a goal name(args) reached under the bindings s at nesting
    depth d is the generator d: EStart d (QQuery name (map (den s) args)), one ENext d per answer - the events
    of the rest of the body, at depth d+1, in between -, a last ENext d that returns StopIteration, EClose d;
+   a goal whose loop is left by a cut or by the commit of an if-then-else / a negation is closed while it is
+   suspended: EClose d after its last answer, without the final ENext (alt_sim, simres_close');
    retract(T) the same with QRetract; asserta/assertz(T) is EAssert of the stored copy; retractall(T) is
    ERetractAll.  Unification and the selection of clauses leave no event.  The two machines hold the same
    database and the same identity counter at every point (Rst), and the trace of the run (the atomic updates
@@ -117,6 +119,46 @@ Section Sim.
     - apply simres_nil. apply Rst_set_cur. exact R.
   Qed.
 
+  (* closing a generator that exists (exhausted, or suspended: a cut / a commit leaves its loop) *)
+  Lemma simres_close' d st g' : Rst g' st -> scur st d <> CNone -> simres d st g' [].
+  Proof.
+    intros R E. apply (@simres_silent d st (EClose d) (set_cur st d CDone) OClosed g' []).
+    - simpl. destruct (scur st d); try reflexivity. contradiction.
+    - reflexivity.
+    - apply set_cur_frame.
+    - apply simres_nil. apply Rst_set_cur. exact R.
+  Qed.
+
+  Lemma alt_tag lv o x f g' a tr c : alt lv (tag o x) f = Some (g', a, tr, c) ->
+    exists t0, tr = o :: t0 /\ alt lv x f = Some (g', a, t0, c).
+  Proof.
+    destruct x as [[[[g1 a1] t1] c1]|]; simpl; [|discriminate].
+    destruct (lv c1) as [c'|]; [intros H; inversion H; subst; eauto|].
+    destruct (f g1) as [[[[g2 a2] t2] c2]|]; [|discriminate]. intros H; inversion H; subst. eauto.
+  Qed.
+
+  (* x at depth d1 (the generators below d1 are not touched), then: stop (what has to be closed is closed),
+     or f from the state x left *)
+  Lemma alt_sim lv (x : res) (f : glob -> res) d1 d st g' a tr c :
+    d <= d1 ->
+    (forall g1 a1 t1 c1, x = Some (g1, a1, t1, c1) -> simres d1 st g1 t1) ->
+    (forall g1 a1 t1 c1 c' st1, x = Some (g1, a1, t1, c1) -> lv c1 = Some c' -> Rst g1 st1 ->
+       (forall i, i < d1 -> scur st1 i = scur st i) -> simres d st1 g1 []) ->
+    (forall g1 a1 t1 c1 g2 a2 t2 c2 st1, x = Some (g1, a1, t1, c1) -> lv c1 = None -> f g1 = Some (g2, a2, t2, c2) -> Rst g1 st1 ->
+       (forall i, i < d1 -> scur st1 i = scur st i) -> simres d st1 g2 t2) ->
+    alt lv x f = Some (g', a, tr, c) -> simres d st g' tr.
+  Proof.
+    intros L Hx Hstop Hf H. unfold alt in H. destruct x as [[[[g1 a1] t1] c1]|]; [|discriminate].
+    pose proof (Hx _ _ _ _ eq_refl) as S1.
+    destruct (lv c1) as [c'|] eqn:LV.
+    - inversion H; subst; clear H. rewrite <- (app_nil_r tr).
+      apply (@simres_seq d1 d st g' tr g' []); [exact L|exact S1|].
+      intros st1 R1 Fr1. eapply Hstop; eauto.
+    - destruct (f g1) as [[[[g2 a2] t2] c2]|] eqn:E; [|discriminate]. inversion H; subst; clear H.
+      apply (@simres_seq d1 d st g1 t1 g' t2); [exact L|exact S1|].
+      intros st1 R1 Fr1. eapply Hf; eauto.
+  Qed.
+
   (* ---------------------------------------------------------------- one use of a fact, both machines *)
   Lemma match_both F n s args f u n1 :
     (forall w, F w = true -> w < n) -> wf s -> good (Pc n F) s -> lin (Pc n F) args -> fact_cells F f ->
@@ -178,7 +220,7 @@ Section Sim.
 
   (* ---------------------------------------------------------------- the loops *)
   Definition sim_rec (rec : list goal -> store -> glob -> res) : Prop :=
-    forall gs s g g' a tr F, cinv F gs s g -> rec gs s g = Some (g', a, tr) ->
+    forall gs s g g' a tr c F, cinv F gs s g -> rec gs s g = Some (g', a, tr, c) ->
     forall d st, Rst g st -> simres d st g' tr.
 
   Section Loops.
@@ -186,12 +228,12 @@ Section Sim.
     Hypothesis Hinv : inv_rec rec.
     Hypothesis Hsim : sim_rec rec.
 
-    Lemma scanq_sim args r s d : forall l g g' a tr F, ginv F g -> ctx F (gn g) s args r l ->
-      scanq uf rec args r s l g = Some (g', a, tr) ->
+    Lemma scanq_sim args r s d : forall l g g' a tr fl F, ginv F g -> ctx F (gn g) s args r l ->
+      scanq uf rec args r s l g = Some (g', a, tr, fl) ->
       forall st, Rst g st -> step mt st (ENext d) = qnext mt st d (map (den s) args) l ->
       simres d st g' tr.
     Proof.
-      induction l as [|f l IH]; intros g g' a tr F I C H st R N; cbn [scanq] in H.
+      induction l as [|f l IH]; intros g g' a tr fl F I C H st R N; cbn [scanq] in H.
       - inversion H; subst. rewrite qnext_nil in N.
         apply (@simres_silent d st (ENext d) _ OEnd g' [] N eq_refl (set_cur_frame st CDone)).
         apply simres_close; [apply Rst_set_cur; exact R|]. simpl. rewrite Nat.eqb_refl. reflexivity.
@@ -203,29 +245,30 @@ Section Sim.
         assert (C1: ctx F n1 s args r l) by (eapply ctx_mono; [apply grow_n; exact L|eapply ctx_tail; exact C]).
         destruct u as [s'| | |]; try discriminate.
         + destruct Po as [W' G']. destruct MB as [a0 [MY AE]].
-          destruct (rec r s' (set_n g n1)) as [[[g1 a1] t1]|] eqn:ER; [|discriminate]. cbn [bindr] in H.
-          destruct (scanq uf rec args r s l g1) as [[[g2 a2] t2]|] eqn:ES; [|discriminate]. inversion H; subst; clear H.
+          unfold bindr in H. apply alt_tag in H as [t0 [-> H]].
           rewrite (@qnext_yes st d _ _ l _ MY) in N.
           assert (CI: cinv F r s' (set_n g n1)) by (constructor; simpl; auto; apply C1).
-          destruct (Hinv CI ER) as [F1 [G1 I1']]. simpl in G1.
-          change ((OAns (fid f) (map (den_fast s') args) :: t1) ++ t2) with (OAns (fid f) (map (den_fast s') args) :: (t1 ++ t2)).
           eapply simres_out; [exact N|reflexivity|simpl; auto|apply set_cur_frame|].
           set (st1 := set_cur st d (CQRun (map (den s) args) l)).
-          apply (@simres_seq (S d) d st1 g1 t1 g' t2); [lia| |].
-          * eapply Hsim; [exact CI|exact ER|]. apply Rst_set_n. apply Rst_set_cur. exact R.
-          * intros st2 R2 Fr2. eapply IH; [exact I1'|eapply ctx_mono; [exact G1|exact C1]|exact ES|exact R2|].
+          assert (R1: Rst (set_n g n1) st1) by (apply Rst_set_n; apply Rst_set_cur; exact R).
+          eapply (@alt_sim lv_loop _ _ (S d) d st1); [lia| | | |exact H].
+          * intros g1 a1 t1 c1 ER. eapply Hsim; [exact CI|exact ER|exact R1].
+          * intros g1 a1 t1 c1 c' st2 ER _ R2 Fr2. apply simres_close'; [exact R2|].
+            rewrite (Fr2 d) by lia. unfold st1. simpl. rewrite Nat.eqb_refl. discriminate.
+          * intros g1 a1 t1 c1 g2 a2 t2 c2 st2 ER _ ES R2 Fr2. destruct (Hinv CI ER) as [F1 [G1 I1']]. simpl in G1.
+            eapply IH; [exact I1'|eapply ctx_mono; [exact G1|exact C1]|exact ES|exact R2|].
             cbn [step]. rewrite (Fr2 d) by lia. unfold st1. simpl. rewrite Nat.eqb_refl. reflexivity.
         + rewrite (@qnext_no st d _ _ l MB) in N.
           eapply IH; [exact I1|exact C1|exact H|apply Rst_set_n; exact R|exact N].
     Qed.
 
-    Lemma scanr_sim k args r s d : forall l g g' a tr F, ginv F g -> ctx F (gn g) s args r l ->
-      scanr uf rec k args r s l g = Some (g', a, tr) ->
+    Lemma scanr_sim k args r s d : forall l g g' a tr fl F, ginv F g -> ctx F (gn g) s args r l ->
+      scanr uf rec k args r s l g = Some (g', a, tr, fl) ->
       forall st, Rst g st -> (forall st0, sdb st0 = sdb st -> scur st0 d = scur st d ->
                                step mt st0 (ENext d) = rnext mt st0 d k (map (den s) args) l) ->
       simres d st g' tr.
     Proof.
-      induction l as [|f l IH]; intros g g' a tr F I C H st R N; cbn [scanr] in H.
+      induction l as [|f l IH]; intros g g' a tr fl F I C H st R N; cbn [scanr] in H.
       - inversion H; subst. specialize (N st eq_refl eq_refl). rewrite rnext_nil in N.
         apply (@simres_silent d st (ENext d) _ OEnd g' [] N eq_refl (set_cur_frame st CDone)).
         apply simres_close; [apply Rst_set_cur; exact R|]. simpl. rewrite Nat.eqb_refl. reflexivity.
@@ -240,20 +283,20 @@ Section Sim.
         + destruct Po as [W' G']. destruct MB as [a0 [MY AE]].
           destruct (has_id (fid f) (gdb g k)) eqn:HG.
           * set (g0 := mkg (upd k (del_id (fid f) (gdb g k)) (gdb g)) (gid g) n1 (gw g)) in *.
-            destruct (rec r s' g0) as [[[g1 a1] t1]|] eqn:ER; [|discriminate]. cbn [bindr] in H.
-            destruct (scanr uf rec k args r s l g1) as [[[g2 a2] t2]|] eqn:ES; [|discriminate]. inversion H; subst; clear H.
+            unfold bindr in H. apply alt_tag in H as [t0 [-> H]].
             specialize (N st eq_refl eq_refl). rewrite (@rnext_yes st d k _ _ l _ MY HI) in N.
             assert (I0: ginv F g0) by (apply ginv_del; auto).
             assert (CI: cinv F r s' g0) by (constructor; simpl; auto; apply C1).
-            destruct (Hinv CI ER) as [F1 [G1 I1']]. simpl in G1.
-            change ((ORet k (fid f) (map (den_fast s') args) :: t1) ++ t2) with (ORet k (fid f) (map (den_fast s') args) :: (t1 ++ t2)).
             eapply simres_out; [exact N|reflexivity|simpl; auto|intros c Hc; simpl; destruct (Nat.eqb_spec c d); [lia|reflexivity]|].
             set (st1 := set_cur (set_db st (upd k (del_id (fid f) (sdb st k)) (sdb st))) d (CRRun k (map (den s) args) l)).
             assert (R1: Rst g0 st1).
             { destruct R as [Ra Rb]. split; simpl; auto. apply upd_ext; auto. rewrite Ra. reflexivity. }
-            apply (@simres_seq (S d) d st1 g1 t1 g' t2); [lia| |].
-            -- eapply Hsim; [exact CI|exact ER|exact R1].
-            -- intros st2 R2 Fr2. eapply IH; [exact I1'|eapply ctx_mono; [exact G1|exact C1]|exact ES|exact R2|].
+            eapply (@alt_sim lv_loop _ _ (S d) d st1); [lia| | | |exact H].
+            -- intros g1 a1 t1 c1 ER. eapply Hsim; [exact CI|exact ER|exact R1].
+            -- intros g1 a1 t1 c1 c' st2 ER _ R2 Fr2. apply simres_close'; [exact R2|].
+               rewrite (Fr2 d) by lia. unfold st1. simpl. rewrite Nat.eqb_refl. discriminate.
+            -- intros g1 a1 t1 c1 g2 a2 t2 c2 st2 ER _ ES R2 Fr2. destruct (Hinv CI ER) as [F1 [G1 I1']]. simpl in G1.
+               eapply IH; [exact I1'|eapply ctx_mono; [exact G1|exact C1]|exact ES|exact R2|].
                intros st0 E1 E2. cbn [step]. rewrite E2, (Fr2 d) by lia. unfold st1. simpl. rewrite Nat.eqb_refl. reflexivity.
           * eapply IH; [exact I1|exact C1|exact H|apply Rst_set_n; exact R|].
             intros st0 E1 E2. rewrite (N st0 E1 E2). apply (@rnext_gone st0 d k _ _ l _ MY). rewrite E1. exact HI.
@@ -261,10 +304,10 @@ Section Sim.
           intros st0 E1 E2. rewrite (N st0 E1 E2). apply (@rnext_no st0 d k _ _ l MB).
     Qed.
 
-    Lemma tryclauses_sim args r s d : forall cls g g' a tr F, Forall clause_ok cls -> ginv F g -> ctx F (gn g) s args r [] ->
-      tryclauses uf rec args r s cls g = Some (g', a, tr) -> forall st, Rst g st -> simres d st g' tr.
+    Lemma tryclauses_sim args r s d : forall cls g g' a tr fl F, Forall clause_ok cls -> ginv F g -> ctx F (gn g) s args r [] ->
+      tryclauses uf rec args r s cls g = Some (g', a, tr, fl) -> forall st, Rst g st -> simres d st g' tr.
     Proof.
-      induction cls as [|c cs IH]; intros g g' a tr F OK I C H st R; cbn [tryclauses] in H.
+      induction cls as [|c cs IH]; intros g g' a tr fl F OK I C H st R; cbn [tryclauses] in H.
       - inversion H; subst. apply simres_nil. exact R.
       - inversion OK as [|? ? Oc Ocs]; subst. pose proof C as [W G La Lr _].
         assert (L: gn g <= gn g + cnv c) by lia.
@@ -273,15 +316,13 @@ Section Sim.
         destruct (@head_step uf F g s args c _ I W G La Oc eq_refl) as [Po Lb].
         destruct (unify_arrays_fast uf s args (map (shift (gn g)) (chead c))) as [s'| | |]; try discriminate.
         + destruct Po as [W' G'].
-          destruct (rec (map (shift_goal (gn g)) (cbody c) ++ r) s' (set_n g (gn g + cnv c))) as [[[g1 a1] t1]|] eqn:ER; [|discriminate].
-          cbn [bindr] in H.
-          destruct (tryclauses uf rec args r s cs g1) as [[[g2 a2] t2]|] eqn:ES; [|discriminate]. inversion H; subst; clear H.
-          assert (CI: cinv F (map (shift_goal (gn g)) (cbody c) ++ r) s' (set_n g (gn g + cnv c))).
-          { constructor; simpl; auto. apply Forall_app. split; [exact Lb|apply C1]. }
-          destruct (Hinv CI ER) as [F1 [G1 I1']]. simpl in G1.
-          apply (@simres_seq d d st g1 t1 g' t2); [lia| |].
-          * eapply Hsim; [exact CI|exact ER|apply Rst_set_n; exact R].
-          * intros st2 R2 _. eapply IH; [exact Ocs|exact I1'|eapply ctx_mono; [exact G1|exact C1]|exact ES|exact R2].
+          assert (CI: cinv F (map (shift_goal (gn g)) (cbody c) ++ GPop :: r) s' (set_n g (gn g + cnv c))).
+          { constructor; simpl; auto. apply Forall_app. split; [exact Lb|constructor; [exact Logic.I|apply C1]]. }
+          eapply (@alt_sim lv_clause _ _ d d st); [lia| | | |exact H].
+          * intros g1 a1 t1 c1 ER. eapply Hsim; [exact CI|exact ER|apply Rst_set_n; exact R].
+          * intros g1 a1 t1 c1 c' st2 ER _ R2 _. apply simres_nil. exact R2.
+          * intros g1 a1 t1 c1 g2 a2 t2 c2 st2 ER _ ES R2 _. destruct (Hinv CI ER) as [F1 [G1 I1']]. simpl in G1.
+            eapply IH; [exact Ocs|exact I1'|eapply ctx_mono; [exact G1|exact C1]|exact ES|exact R2].
         + eapply IH; [exact Ocs|exact I1|exact C1|exact H|apply Rst_set_n; exact R].
     Qed.
   End Loops.
@@ -292,37 +333,36 @@ Section Sim.
 
     Lemma solve_sim : forall n, sim_rec (solve uf prog n).
     Proof.
-      induction n as [|n IH]; intros gs s g g' a tr F CI H d st R; [discriminate|].
+      induction n as [|n IH]; intros gs s g g' a tr fl F CI H d st R; [discriminate|].
       pose proof (@solve_inv uf prog Hprog n) as Hinv.
       cbn [solve] in H. destruct (gw g) as [|w]; [discriminate|].
       apply (@cinv_tick F gs s g w) in CI.
       assert (R': Rst (mkg (gdb g) (gid g) (gn g) w) st) by exact R.
       set (gt := mkg (gdb g) (gid g) (gn g) w) in *. clearbody gt. clear R g. rename gt into g. rename R' into R.
       pose proof CI as [I W G Lg].
-      destruct gs as [|[x y|name args|front t|t|t] r].
+      destruct gs as [|[x y|name args|front t|t|t| | |ga gb|gc gt ge| | ] r].
       - inversion H; subst. apply simres_nil. exact R.
       - inversion Lg as [|? ? Tg Lr]; subst. simpl in Tg. destruct Tg as [Tx Ty]. rewrite unify_fast_eq in H.
         destruct (@unify_frame (Pc (gn g) F) uf s x y (good_closed G) Tx Ty) as [_ Po].
         destruct (unify uf s x y) as [s'| | |] eqn:EU; try discriminate.
         + destruct Po as [nw [-> Gn]]. destruct (unify_sound _ _ _ W EU) as [W' _].
-          eapply (IH _ _ _ _ _ _ F); [|exact H|exact R]. constructor; auto. apply good_app; auto.
+          eapply (IH _ _ _ _ _ _ _ F); [|exact H|exact R]. constructor; auto. apply good_app; auto.
         + inversion H; subst. apply simres_nil. exact R.
       - inversion Lg as [|? ? La Lr]; subst. simpl in La.
-        destruct (scanq uf (solve uf prog n) args r s (gdb g (name, length args)) g) as [[[g1 a1] t1]|] eqn:ES; [|discriminate].
-        cbn [bindr] in H.
-        destruct (tryclauses uf (solve uf prog n) args r s (clauses_of prog name (length args)) g1) as [[[g2 a2] t2]|] eqn:ET; [|discriminate].
-        inversion H; subst; clear H.
         assert (C: ctx F (gn g) s args r (gdb g (name, length args))).
         { constructor; auto. apply Forall_forall. intros f Hf. eapply (gi_facts I); eauto. }
-        destruct (@scanq_inv uf _ Hinv args r s _ _ _ _ _ F I C ES) as [F1 [G1 I1]].
         set (pat := map (den s) args).
         set (st0 := set_cur st d (CQNew (name, length pat) pat)).
-        apply (@simres_silent d st (EStart d (QQuery name pat)) st0 OStart g' (t1 ++ t2) eq_refl eq_refl (set_cur_frame st _)).
-        apply (@simres_seq d d st0 g1 t1 g' t2); [lia| |].
-        + eapply scanq_sim; [exact Hinv|exact IH|exact I|exact C|exact ES|apply Rst_set_cur; exact R|].
+        apply (@simres_silent d st (EStart d (QQuery name pat)) st0 OStart g' tr eq_refl eq_refl (set_cur_frame st _)).
+        eapply (@alt_sim lv_loop _ _ d d st0); [lia| | | |exact H].
+        + intros g1 a1 t1 c1 ES.
+          eapply scanq_sim; [exact Hinv|exact IH|exact I|exact C|exact ES|apply Rst_set_cur; exact R|].
           cbn [step]. unfold st0. simpl. rewrite Nat.eqb_refl. unfold pat. rewrite map_length.
           destruct R as [Ra _]. f_equal. apply Ra.
-        + intros st2 R2 _. eapply tryclauses_sim; [exact Hinv|exact IH|apply clauses_of_ok; exact Hprog|exact I1| |exact ET|exact R2].
+        + intros g1 a1 t1 c1 c' st2 ES _ R2 _. apply simres_nil. exact R2.
+        + intros g1 a1 t1 c1 g2 a2 t2 c2 st2 ES _ ET R2 _.
+          destruct (@scanq_inv uf _ Hinv args r s _ _ _ _ _ _ F I C ES) as [F1 [G1 I1]].
+          eapply tryclauses_sim; [exact Hinv|exact IH|apply clauses_of_ok; exact Hprog|exact I1| |exact ET|exact R2].
           eapply ctx_mono; [exact G1|]. destruct C; constructor; auto.
       - inversion Lg as [|? ? Tt Lr]; subst. simpl in Tt.
         destruct (callable (den_fast s t)) as [[name args]|] eqn:CA.
@@ -330,7 +370,7 @@ Section Sim.
           set (k := (name, length args)) in *.
           destruct (@assert_inv F g s args stored n1 k front (gw g) I AI) as [G1 I1].
           set (g0 := mkg (upd k (ins front (mkfact (gid g) stored) (gdb g k)) (gdb g)) (S (gid g)) n1 (gw g)) in *.
-          destruct (solve uf prog n r s g0) as [[[g1 a1] t1]|] eqn:E; [|discriminate]. inversion H; subst; clear H.
+          apply tag_some in H as [t1 [-> E]].
           assert (LS: length stored = length args).
           { rewrite answer_init_fast_eq in AI. unfold answer_init in AI.
             pose proof (copy_args_length s args (gn g)) as X. rewrite AI in X. exact X. }
@@ -343,7 +383,7 @@ Section Sim.
           eapply IH; [|exact E|].
           * eapply (@cinv_mono F (gn g)); [exact G1|reflexivity|exact I1|]. constructor; auto.
           * split; simpl; [|rewrite Rb; reflexivity]. apply upd_ext; auto. rewrite Ra. reflexivity.
-        + eapply (IH _ _ _ _ _ _ F); [|exact H|exact R]. constructor; auto.
+        + eapply (IH _ _ _ _ _ _ _ F); [|exact H|exact R]. constructor; auto.
       - inversion Lg as [|? ? Tt Lr]; subst. simpl in Tt.
         destruct (callable (den_fast s t)) as [[name args]|] eqn:CA.
         + assert (C: ctx F (gn g) s args r (gdb g (name, length args))).
@@ -362,7 +402,7 @@ Section Sim.
         set (k := (name, length args)) in *.
         destruct (rallh uf s args (gdb g k) (gn g)) as [[[keep gone] n1]|] eqn:RA; [|discriminate].
         set (g0 := mkg (upd k keep (gdb g)) (gid g) n1 (gw g)) in *.
-        destruct (solve uf prog n r s g0) as [[[g1 a1] t1]|] eqn:E; [|discriminate]. inversion H; subst; clear H.
+        apply tag_some in H as [t1 [-> E]].
         assert (La: lin (Pc (gn g) F) args) by (eapply callable_lin; [apply good_closed; exact G|exact Tt|exact CA]).
         assert (Fl: Forall (fact_cells F) (gdb g k)) by (apply Forall_forall; intros f Hf; eapply (gi_facts I); eauto).
         destruct (@rallh_inv uf F s args _ _ _ _ _ (gi_range I) W G La Fl RA) as [L Sub].
@@ -380,14 +420,39 @@ Section Sim.
         eapply IH; [|exact E|].
         + eapply (@cinv_mono F (gn g)); [apply grow_n; exact L|reflexivity|exact I0|]. constructor; auto.
         + split; simpl; auto. apply upd_ext; auto.
+      - (* fail *) inversion H; subst. apply simres_nil. exact R.
+      - (* ! : the rest of the body; the loops that are left close their generators themselves *)
+        inversion Lg as [|? ? _ Lr]; subst. apply mapflag_some in H as [c0 E].
+        eapply (IH _ _ _ _ _ _ _ F); [|exact E|exact R]. constructor; auto.
+      - (* ; *) inversion Lg as [|? ? Tg Lr]; subst. apply goal_in_or in Tg as [Ta Tb].
+        assert (CIa: cinv F (ga ++ r) s g) by (constructor; auto; apply Forall_app; split; auto).
+        eapply (@alt_sim lv_loop _ _ d d st); [lia| | | |exact H].
+        + intros g1 a1 t1 c1 E. eapply IH; [exact CIa|exact E|exact R].
+        + intros g1 a1 t1 c1 c' st2 E _ R2 _. apply simres_nil. exact R2.
+        + intros g1 a1 t1 c1 g2 a2 t2 c2 st2 E _ E2 R2 _. destruct (Hinv _ _ _ _ _ _ _ _ CIa E) as [F1 [G1 I1]].
+          eapply IH; [|exact E2|exact R2].
+          eapply (@cinv_mono F (gn g)); [exact G1|reflexivity|exact I1|]. constructor; auto. apply Forall_app. split; auto.
+      - (* -> ; *) inversion Lg as [|? ? Tg Lr]; subst. apply goal_in_if in Tg as [Tc [Tt Te]].
+        assert (CIc: cinv F (gc ++ GCommit :: gt ++ r) s g).
+        { constructor; auto. apply Forall_app. split; auto. constructor; [exact Logic.I|]. apply Forall_app. split; auto. }
+        eapply (@alt_sim lv_if _ _ d d st); [lia| | | |exact H].
+        + intros g1 a1 t1 c1 E. eapply IH; [exact CIc|exact E|exact R].
+        + intros g1 a1 t1 c1 c' st2 E _ R2 _. apply simres_nil. exact R2.
+        + intros g1 a1 t1 c1 g2 a2 t2 c2 st2 E _ E2 R2 _. destruct (Hinv _ _ _ _ _ _ _ _ CIc E) as [F1 [G1 I1]].
+          eapply IH; [|exact E2|exact R2].
+          eapply (@cinv_mono F (gn g)); [exact G1|reflexivity|exact I1|]. constructor; auto. apply Forall_app. split; auto.
+      - (* end of a clause body *) inversion Lg as [|? ? _ Lr]; subst. apply mapflag_some in H as [c0 E].
+        eapply (IH _ _ _ _ _ _ _ F); [|exact E|exact R]. constructor; auto.
+      - (* end of a condition *) inversion Lg as [|? ? _ Lr]; subst. apply mapflag_some in H as [c0 E].
+        eapply (IH _ _ _ _ _ _ _ F); [|exact E|exact R]. constructor; auto.
     Qed.
 
     (* every run of a compiled body is a history of the cursor machine *)
-    Theorem prog_run_is_cursor_history n gs s g g' a tr F st :
-      cinv F gs s g -> solve uf prog n gs s g = Some (g', a, tr) -> Rst g st ->
+    Theorem prog_run_is_cursor_history n gs s g g' a tr fl F st :
+      cinv F gs s g -> solve uf prog n gs s g = Some (g', a, tr, fl) -> Rst g st ->
       exists evs st' outs, run mt st evs = Some (st', outs) /\ Rst g' st' /\ tr_eqv tr (dbouts outs).
     Proof.
-      intros CI H R. destruct (@solve_sim n gs s g g' a tr F CI H 0 st R) as [evs [st' [outs [A [B [C _]]]]]].
+      intros CI H R. destruct (@solve_sim n gs s g g' a tr fl F CI H 0 st R) as [evs [st' [outs [A [B [C _]]]]]].
       exists evs, st', outs. auto.
     Qed.
   End Solve.
@@ -429,13 +494,13 @@ Section Transfer.
   Notation mt := (match_fact uf).
 
   (* C14_no_lost_update / C14_retract_at_most_once / C07_ids_invariant of the history, read in the compiled run *)
-  Theorem prog_history_no_lost_update n gs s g g' a tr F :
-    cinv F gs s g -> ids_ok (gdb g) (gid g) -> solve uf prog n gs s g = Some (g', a, tr) ->
+  Theorem prog_history_no_lost_update n gs s g g' a tr fl F :
+    cinv F gs s g -> ids_ok (gdb g) (gid g) -> solve uf prog n gs s g = Some (g', a, tr, fl) ->
     exists evs st' outs, run mt (st_of g) evs = Some (st', outs) /\ Rst g' st' /\ tr_eqv tr (dbouts outs) /\
       (forall k, gdb g' k = apply_outs outs (gdb g) k) /\ ids_ok (gdb g') (gid g') /\
       NoDup (removed outs) /\ removed tr = removed outs.
   Proof.
-    intros CI I H. destruct (@prog_run_is_cursor_history uf prog Hprog n gs s g g' a tr F (st_of g) CI H (Rst_st_of g))
+    intros CI I H. destruct (@prog_run_is_cursor_history uf prog Hprog n gs s g g' a tr fl F (st_of g) CI H (Rst_st_of g))
       as [evs [st' [outs [A [B C]]]]].
     exists evs, st', outs. split; [exact A|]. split; [exact B|]. split; [exact C|].
     destruct (@no_lost_update mt evs (st_of g) st' outs I A) as [D E]. destruct B as [B1 B2].
@@ -446,15 +511,15 @@ Section Transfer.
 
   (* C14_cursor_visits_snapshot of the history: whatever the rest of the run does, every generator of the history
      that has its snapshot returns exactly the matching facts of that snapshot, in order, then StopIteration *)
-  Theorem prog_history_cursor_visits_snapshot n gs s g g' a tr F :
-    cinv F gs s g -> solve uf prog n gs s g = Some (g', a, tr) ->
+  Theorem prog_history_cursor_visits_snapshot n gs s g g' a tr fl F :
+    cinv F gs s g -> solve uf prog n gs s g = Some (g', a, tr, fl) ->
     exists evs st' outs, run mt (st_of g) evs = Some (st', outs) /\ Rst g' st' /\ tr_eqv tr (dbouts outs) /\
       forall pre post st1 o1 st2 o2 c L, evs = pre ++ post ->
         run mt (st_of g) pre = Some (st1, o1) -> run mt st1 post = Some (st2, o2) ->
         cur_stream mt (scur st1 c) = Some L -> no_ctl c post ->
         outs_of c post o2 = expect L (length (outs_of c post o2)).
   Proof.
-    intros CI H. destruct (@prog_run_is_cursor_history uf prog Hprog n gs s g g' a tr F (st_of g) CI H (Rst_st_of g))
+    intros CI H. destruct (@prog_run_is_cursor_history uf prog Hprog n gs s g g' a tr fl F (st_of g) CI H (Rst_st_of g))
       as [evs [st' [outs [A [B C]]]]].
     exists evs, st', outs. split; [exact A|]. split; [exact B|]. split; [exact C|].
     intros pre post st1 o1 st2 o2 c L _ _ R2 HL NC. eapply cursor_visits_snapshot; eauto.
@@ -463,13 +528,13 @@ Section Transfer.
   (* C07_db_refines_list_spec of the history: when the history of the run is a sequence of atomic operations
      (no goal suspended around a database operation), what the run sees and leaves is what the list
      specification says *)
-  Theorem prog_history_refines_list_spec n gs s g g' a tr F :
-    cinv F gs s g -> ids_ok (gdb g) (gid g) -> solve uf prog n gs s g = Some (g', a, tr) ->
+  Theorem prog_history_refines_list_spec n gs s g g' a tr fl F :
+    cinv F gs s g -> ids_ok (gdb g) (gid g) -> solve uf prog n gs s g = Some (g', a, tr, fl) ->
     exists evs st' outs, run mt (st_of g) evs = Some (st', outs) /\ Rst g' st' /\ tr_eqv tr (dbouts outs) /\
       forall ops d0, evs = flat_map compile ops -> R d0 (st_of g) ->
         map vis outs = snd (srun mt d0 ops) /\ R (fst (srun mt d0 ops)) st'.
   Proof.
-    intros CI I H. destruct (@prog_run_is_cursor_history uf prog Hprog n gs s g g' a tr F (st_of g) CI H (Rst_st_of g))
+    intros CI I H. destruct (@prog_run_is_cursor_history uf prog Hprog n gs s g g' a tr fl F (st_of g) CI H (Rst_st_of g))
       as [evs [st' [outs [A [B C]]]]].
     exists evs, st', outs. split; [exact A|]. split; [exact B|]. split; [exact C|].
     intros ops d0 E0 R0. subst evs. exact (@db_refines_list_spec mt ops (st_of g) st' outs d0 I R0 A).
